@@ -43,12 +43,27 @@ func hx(b []byte) string {
 	return hex.EncodeToString(b)
 }
 
+// OnPanic / AfterCall are hooks for the adapters: every accessor of the packet is called
+// through call(where, …); OnPanic sees a recovered panic value (gp-det recognises memory faults on
+// its write-protected input there), AfterCall runs after the accessor returned (gp-det compares the
+// input buffer and its guard zones).
+var (
+	OnPanic   func(where string, r interface{})
+	AfterCall func(where string)
+)
+
 // call runs f and renders a panic as the answer "panic" (rendering panics are C01's subject;
 // for C02 a reader only has to get the SAME answer every time).
-func call(f func() string) (s string) {
+func call(where string, f func() string) (s string) {
 	defer func() {
 		if r := recover(); r != nil {
 			s = "panic"
+			if OnPanic != nil {
+				OnPanic(where, r)
+			}
+		}
+		if AfterCall != nil {
+			AfterCall(where)
 		}
 	}()
 	return f()
@@ -200,25 +215,25 @@ func Structure(p gopacket.Packet) Sig {
 	ls := p.Layers()
 	s = append(s, fmt.Sprintf("nlayers=%d data=%s", len(ls), hx(p.Data())))
 	for i, l := range ls {
-		s = append(s, fmt.Sprintf("L%d type=%v contents=%s payload=%s", i, call(func() string { return l.LayerType().String() }), hx(l.LayerContents()), hx(l.LayerPayload())))
-		s = append(s, fmt.Sprintf("L%d fields=%s", i, Fields(l)))
+		s = append(s, fmt.Sprintf("L%d type=%v contents=%s payload=%s", i, call("LayerType", func() string { return l.LayerType().String() }), hx(l.LayerContents()), hx(l.LayerPayload())))
+		s = append(s, fmt.Sprintf("L%d fields=%s", i, call("Fields", func() string { return Fields(l) })))
 	}
 	var li, ni, ti, ai, ei interface{}
 	if x := p.LinkLayer(); x != nil {
 		li = x
-		s = append(s, "linkflow="+call(func() string { return x.LinkFlow().String() }))
+		s = append(s, "linkflow="+call("LinkFlow", func() string { return x.LinkFlow().String() }))
 	}
 	if x := p.NetworkLayer(); x != nil {
 		ni = x
-		s = append(s, "netflow="+call(func() string { return x.NetworkFlow().String() }))
+		s = append(s, "netflow="+call("NetworkFlow", func() string { return x.NetworkFlow().String() }))
 	}
 	if x := p.TransportLayer(); x != nil {
 		ti = x
-		s = append(s, "transflow="+call(func() string { return x.TransportFlow().String() }))
+		s = append(s, "transflow="+call("TransportFlow", func() string { return x.TransportFlow().String() }))
 	}
 	if x := p.ApplicationLayer(); x != nil {
 		ai = x
-		s = append(s, "apppayload="+call(func() string { return hx(x.Payload()) }))
+		s = append(s, "apppayload="+call("ApplicationPayload", func() string { return hx(x.Payload()) }))
 	}
 	if x := p.ErrorLayer(); x != nil {
 		ei = x
@@ -239,17 +254,26 @@ func Structure(p gopacket.Packet) Sig {
 // no error layer (a DecodeFailure's dump is a goroutine stack trace: addresses, goroutine ids).
 func Rendering(p gopacket.Packet) Sig {
 	var s Sig
-	s = append(s, "string="+call(p.String))
+	s = append(s, "string="+call("String", p.String))
 	for i, l := range p.Layers() {
-		s = append(s, fmt.Sprintf("L%d string=%s", i, call(func() string { return gopacket.LayerString(l) })))
+		s = append(s, fmt.Sprintf("L%d string=%s", i, call("LayerString", func() string { return gopacket.LayerString(l) })))
 	}
 	if p.ErrorLayer() == nil {
-		s = append(s, "dump="+call(p.Dump))
+		s = append(s, "dump="+call("Dump", p.Dump))
 		for i, l := range p.Layers() {
-			s = append(s, fmt.Sprintf("L%d dump=%s", i, call(func() string { return gopacket.LayerDump(l) })))
+			s = append(s, fmt.Sprintf("L%d dump=%s", i, call("LayerDump", func() string { return gopacket.LayerDump(l) })))
 		}
 	}
 	return s
+}
+
+func layerName(l gopacket.Layer) (s string) {
+	defer func() {
+		if recover() != nil {
+			s = "?"
+		}
+	}()
+	return l.LayerType().String()
 }
 
 // Checksums: every layer's VerifyChecksum and Packet.VerifyChecksums (errors as "err").
@@ -257,7 +281,7 @@ func Checksums(p gopacket.Packet) Sig {
 	var s Sig
 	for i, l := range p.Layers() {
 		if c, ok := l.(gopacket.LayerWithChecksum); ok {
-			s = append(s, fmt.Sprintf("L%d verify=%s", i, call(func() string {
+			s = append(s, fmt.Sprintf("L%d verify=%s", i, call("VerifyChecksum:"+layerName(l), func() string {
 				err, r := c.VerifyChecksum()
 				if err != nil {
 					return "err"
@@ -266,7 +290,7 @@ func Checksums(p gopacket.Packet) Sig {
 			})))
 		}
 	}
-	s = append(s, "verifychecksums="+call(func() string {
+	s = append(s, "verifychecksums="+call("VerifyChecksums", func() string {
 		err, mm := p.VerifyChecksums()
 		if err != nil {
 			return "err"
